@@ -190,6 +190,26 @@ class HunksFam(Family):
                 if at is not None:
                     for ig in (False, True):
                         yield dict(kind='damage-replace', lines=[hx(x) for x in dl], ig=ig, at=at, foreign=hx(foreign))
+            # the sign of one changed line flipped (consecutive hunks, no separators): one side of that hunk now ends
+            # early, so the hunk is interrupted by the next header, or by the end of the input
+            cands = [(j, i) for j, h in enumerate(hs) for i, (k, _) in enumerate(h['body']) if k in '+-']
+            if cands:
+                j, i = rng.choice(cands)
+                dl = []
+                want = None
+                for jj, h in enumerate(hs):
+                    if jj == j:
+                        h = dict(h)
+                        h['body'] = list(h['body'])
+                        k0, p0 = h['body'][i]
+                        h['body'][i] = ('+' if k0 == '-' else '-', p0)
+                    if jj == j + 1:
+                        want = len(dl) + 1          # the header of the next hunk interrupts the damaged one
+                    dl += render_hunk(h)
+                if want is None:
+                    want = len(dl)                  # end of input: the last line is named
+                for ig in (False, True):
+                    yield dict(kind='damage-flip', lines=[hx(x) for x in dl], ig=ig, want=want)
 
     @staticmethod
     def _ast_json(h):
@@ -242,6 +262,10 @@ class HunksFam(Family):
             if tuple(r[:3]) != want:
                 out.append(('C14', 'damaged-hunk-not-rejected', 'line %d of a hunk replaced by %r: expected MalformedHunkError '
                             'naming it, got %r' % (c['at'] + 1, unhx(c['foreign']), r[:3] if r[0] != 'ok' else 'a normal result')))
+        if c['kind'] == 'damage-flip':
+            if r[0] != 'malformed' or r[2] != c['want']:
+                out.append(('C14', 'short-hunk-not-rejected', 'a hunk with one changed line of the wrong sign (one side ends '
+                            'early): expected MalformedHunkError at line %d, got %r' % (c['want'], r[:3] if r[0] != 'ok' else 'a normal result')))
         if c['kind'] == 'ast':
             hs = [self._ast_load(d) for d in c['ast']]
             seps = [[unhx(x) for x in s] for s in c['seps']]
